@@ -40,6 +40,9 @@ theorem checkSuccession_number {nd : Node} {b : Block} (h : checkSuccession nd b
     b.number = nd.nextNumber := by
   unfold checkSuccession at h
   unfold Node.nextNumber
+  by_cases hv : b.ver ≥ 3
+  · simp [hv] at h
+  simp only [hv, if_false] at h
   cases hh : nd.height with
   | none =>
     simp only [hh] at h
